@@ -29,6 +29,35 @@ def physical_name_rule(ctx, rid, only_harvester=False):
     funcs = [FARM + ".Harvester.load_full_ds", FARM + ".Harvester.save_full_ds", FARM + ".Harvester.delete_ds", MAN + ".save_merge_ds", MAN + ".save_ds", MAN + ".load_ds"]
     if only_harvester:
         funcs = [q for q in funcs if ".Harvester." in q or q.endswith((".save_ds", ".load_ds"))]
+    # a per-object memo of the physical name: data_name is a plain public attribute, so a name remembered in another
+    # attribute (and read back on later calls) survives a reassignment of data_name -- every later load / save / delete
+    # then goes to the first file
+    H_ = prog.need_cls(FARM + ".Harvester")
+    for m_ in H_.methods.values():
+        if m_.name == "__init__":
+            continue
+        for st_ in ast.walk(m_.node):
+            if not (isinstance(st_, ast.Assign) and len(st_.targets) == 1):
+                continue
+            t_ = st_.targets[0]
+            holder = t_.value if isinstance(t_, ast.Subscript) else t_
+            if not (isinstance(holder, ast.Attribute) and norm(holder.value) == "self"):
+                continue
+            v_ = st_.value
+            if isinstance(v_, ast.Name):
+                d_ = single_def(m_, v_.id)
+                v_ = d_[1] if d_ is not None else v_
+            if not (isinstance(v_, ast.Call) and callee_name(ctx, m_, v_) == NORMALISER and any(norm(a_) == "self.data_name" for a_ in v_.args)):
+                continue
+            keytxt = norm(t_.slice) if isinstance(t_, ast.Subscript) else ""
+            reads_back = any(isinstance(x_, ast.Attribute) and isinstance(x_.ctx, ast.Load) and norm(x_) == norm(holder) for x_ in ast.walk(m_.node))
+            is_prop = "data_name" in H_.methods
+            if reads_back and "data_name" not in keytxt and not is_prop:
+                ctx.touch(m_)
+                rr.bad(ctx.finding(rid, m_, st_, "%s remembers the normalised file name in `%s`%s and reads it back on later calls; data_name is a plain attribute, so after `h.data_name = <other>` every load / save / delete still goes to the first file (the new file is never written, the old one is overwritten or deleted)" % (
+                    m_.name, norm(holder), (" keyed by `%s`" % keytxt) if keytxt else ""), construct="file-name-memo " + m_.name), "%s memo" % m_.name)
+            else:
+                raise AnalysisError("idiom changed: %s stores the normalised file name in `%s`; whether it can go stale is not analysed" % (m_.name, norm(holder)))
     for q in funcs:
         f = prog.need_func(q)
         g = build_cfg(f.node)
